@@ -247,7 +247,8 @@ coap_rebuild_pdu_for_proxy(coap_pdu_t *pdu) {
                           uri.host.length,
                           uri.host.s))
     goto error;
-  if (uri.port != (coap_uri_scheme_is_secure(&uri) ? COAPS_DEFAULT_PORT : COAP_DEFAULT_PORT) &&
+  /* the default port is that of the scheme (80 / 443 for http, https, coap+ws, coaps+ws) */
+  if (uri.port != coap_uri_scheme[uri.scheme].port &&
       !coap_insert_option(pdu,
                           COAP_OPTION_URI_PORT,
                           coap_encode_var_safe(option_value_buffer,
